@@ -209,3 +209,168 @@ pub(crate) mod verif_request {
         assert!(false, "twin: must be reported as FAILURE");
     });
 }
+
+// ------------------------------------------------------------------------------- redirect loop
+// The loop of PreparedRequest::<Empty>::send with the per-hop I/O replaced by models:
+//   write_request -> no-op (its output is not decidable, see above)        [sibling-method stub]
+//   parse_response -> scripted status / Location (verif_hops)              [generic fn stub]
+//   set_host -> no-op (format! + HeaderMap::insert are out of reach)      [fn stub]
+//   Url::parse -> the next scripted hop URL, or an error                   [fn stub]
+// Real: the loop itself (redirect set, counter, follow_redirects, Location lookup, error mapping),
+// ProxySettings::for_url per hop, BaseStream::connect (peer selection) per hop.
+impl<B: Body> PreparedRequest<B> {
+    fn verif_write_request_noop<W>(&mut self, _writer: W, _url: &Url, _proxy: Option<&Url>) -> Result
+    where
+        W: Write,
+    {
+        Ok(())
+    }
+}
+
+pub(crate) mod verif_loop {
+    use super::*;
+    use crate::parsing::response::verif_hops::*;
+    use crate::verif::{make_url, DialHost, UrlSpec};
+
+    pub static mut NEXT_HOST: [u8; 6] = [b'a', b'b', b'c', b'd', b'e', b'f'];
+    pub static mut NEXT_FAILS: [bool; 6] = [false; 6];
+    pub static mut NEXT_HTTPS: [bool; 6] = [false, true, false, true, false, true];
+    pub static mut JOIN_CALLS: usize = 0;
+
+    pub fn set_host_noop(_headers: &mut HeaderMap, _url: &Url) -> Result {
+        Ok(())
+    }
+
+    /// Url::parse model: Location of hop k resolves to http://<NEXT_HOST[k]>/ (or is unusable)
+    pub fn url_parse_next(_input: &str) -> std::result::Result<Url, url::ParseError> {
+        let k = unsafe { HOP };
+        // HOP was already advanced by parse_response_model: the Location belongs to hop k-1
+        let i = k - 1;
+        if unsafe { NEXT_FAILS[i] } {
+            return Err(url::ParseError::EmptyHost);
+        }
+        let h = [unsafe { NEXT_HOST[i] }];
+        Ok(make_url(&UrlSpec::simple(unsafe { NEXT_HTTPS[i] }, &h)))
+    }
+
+    fn dialled_host(k: usize) -> u8 {
+        match unsafe { crate::verif::DIAL_LOG[k].host } {
+            DialHost::Domain { bytes, len } => {
+                if len == 1 {
+                    bytes[0]
+                } else {
+                    0
+                }
+            }
+            _ => 0,
+        }
+    }
+
+    /// chain of up to 4 hops; statuses symbolic over {200, 300..308, 404}; only an http proxy 'p' is
+    /// configured: http hops must be dialled at the proxy, https hops (2nd, 4th, ..) at their own host.
+    pub fn run(max_redirections: u32, follow: bool, hops: usize) {
+        let mut i = 0;
+        while i < hops {
+            let s: u16 = kani::any();
+            kani::assume(s == 200 || s == 301 || s == 302 || s == 303 || s == 304 || s == 307 || s == 308 || s == 404 || s == 300 || s == 305);
+            unsafe {
+                HOP_STATUS[i] = s;
+                HOP_HAS_LOCATION[i] = kani::any();
+            }
+            i += 1;
+        }
+        // last scripted hop always terminates the chain
+        unsafe {
+            HOP_STATUS[hops - 1] = 200;
+            HOP = 0;
+            PARSE_CALLS = 0;
+            crate::verif::DIAL_COUNT = 0;
+            NEXT_HOST = [b'a', b'b', b'c', b'd', b'e', b'f'];
+        }
+        let proxy = make_url(&UrlSpec::simple(false, b"p"));
+        let mut st = verif_request::settings(proxy::verif_proxy_settings(Some(proxy), None, Vec::new()));
+        st.max_redirections = max_redirections;
+        st.follow_redirects = follow;
+        let start = make_url(&UrlSpec::simple(false, b"s"));
+        let mut req = verif_request::verif_prepared(Method::GET, start, st);
+        let r = req.send();
+
+        let sent = unsafe { PARSE_CALLS };
+        let dials = unsafe { crate::verif::DIAL_COUNT };
+        assert!(dials == sent, "C09: connections and requests differ");
+        assert!(sent as u64 <= max_redirections as u64 + 1, "C09: more than max_redirections + 1 requests sent");
+        if !follow {
+            assert!(sent == 1, "C09: redirect followed although following is disabled");
+            assert!(r.is_ok(), "C09: 3xx response not returned when following is disabled");
+        }
+        // replay the chain with the reference rules
+        let mut k = 0;
+        let mut redirs: u32 = 0;
+        let mut want_err = false;
+        loop {
+            let s = unsafe { HOP_STATUS[k] };
+            let is_redirect = s == 301 || s == 302 || s == 303 || s == 307 || s == 308;
+            if !follow || !is_redirect {
+                break;
+            }
+            redirs += 1;
+            if redirs > max_redirections {
+                want_err = true;
+                break;
+            }
+            if !unsafe { HOP_HAS_LOCATION[k] } {
+                want_err = true;
+                break;
+            }
+            k += 1;
+        }
+        assert!(sent == k + 1, "C09: wrong number of requests for this chain (followed a non-redirect status, or stopped early)");
+        match &r {
+            Ok(resp) => {
+                assert!(!want_err, "C09: chain that must fail (too many redirections / missing Location) returned a response");
+                assert!(resp.status().as_u16() == unsafe { HOP_STATUS[k] }, "C09: returned response is not the last one fetched");
+                // the response reports the URL it was fetched from
+                let want_host: &[u8] = if k == 0 { b"s" } else { std::slice::from_ref(unsafe { &NEXT_HOST[k - 1] }) };
+                assert!(response_url(resp).host_str().map(|h| h.as_bytes()) == Some(want_host), "C09: response does not report the URL it was fetched from");
+            }
+            Err(_) => assert!(want_err, "C09: valid chain failed"),
+        }
+        // C08 / C10 per hop: the peer is re-evaluated for every hop URL: http hops go to the proxy
+        // 'p' (port 80), https hops to their own host (port 443)
+        let mut h = 0;
+        while h < sent {
+            let host = if h == 0 { b's' } else { unsafe { NEXT_HOST[h - 1] } };
+            let https = if h == 0 { false } else { unsafe { NEXT_HTTPS[h - 1] } };
+            let want = if https { host } else { b'p' };
+            assert!(dialled_host(h) == want, "C10/C08: hop sent to the wrong peer (proxy choice not re-evaluated for the hop's URL)");
+            let rec = unsafe { crate::verif::DIAL_LOG[h] };
+            assert!(rec.https == https && rec.port == if https { 443 } else { 80 }, "C10/C08: hop dialled with the wrong scheme / port");
+            h += 1;
+        }
+        kani::cover!(sent >= 3, "three requests");
+        kani::cover!(want_err, "error chain");
+        kani::cover!(true, "must: loop ran");
+        std::mem::forget(r);
+        std::mem::forget(req);
+    }
+
+    macro_rules! loop_harness {
+        ($name:ident, $max:expr, $follow:expr, $hops:expr) => {
+            #[kani::proof]
+            #[kani::unwind(5)]
+            #[kani::stub(crate::parsing::response::parse_response, crate::parsing::response::verif_hops::parse_response_model)]
+            #[kani::stub(crate::request::PreparedRequest::write_request, crate::request::PreparedRequest::verif_write_request_noop)]
+            #[kani::stub(crate::request::set_host, set_host_noop)]
+            #[kani::stub(url::Url::parse, url_parse_next)]
+            #[kani::stub(str::to_lowercase, crate::request::proxy::verif_proxy::to_lowercase_ascii)]
+            fn $name() {
+                run($max, $follow, $hops);
+            }
+        };
+    }
+    loop_harness!(c09_q_loop_max0, 0, true, 2);
+    loop_harness!(c09_q_loop_max1, 1, true, 3);
+    loop_harness!(c09_q_loop_max2, 2, true, 4);
+    loop_harness!(c09_q_loop_nofollow, 5, false, 2);
+    loop_harness!(c09_t_loop_max3, 3, true, 5);
+}
